@@ -1,6 +1,6 @@
 """C16 - literals denote exactly the values they spell.
 
-E3 enumeration, six families, every case parsed (Constant.value in the tree,
+E3 enumeration, nine families, every case parsed (Constant.value in the tree,
 exact type) and evaluated (the value again):
  spell   every string of a bounded space, spelled by models/literals.quote in each of the three styles, must read
          back as exactly that string (all strings <= 4 over a 15-symbol alphabet of quotes, backslashes and escape
@@ -15,6 +15,14 @@ exact type) and evaluated (the value again):
  options string literals holding every surrogate code point, BMP and astral samples and all strings <= 2 over the
          spell alphabet, numbers and constants, on an engine with a (generous) memory quota and iterator limit:
          engine options must not change what a literal denotes;
+ together two and three literals in one expression: every ordered pair (triple) over a boundary-rich set of literals
+         (string bodies that are empty, end in 1..4 backslashes, hold the escaped quote of their own style, the quote
+         characters of the other styles, the separators , => + and closing brackets, in all three styles and mixed; numbers,
+         true/false/null and keywords) inside [a, b], a + b, {a => b}, list(a, b), concat(a, b) (and the three-literal
+         forms), with and without blanks around the separators: each literal node of the tree and the value of the
+         expression are what the reference model says each literal denotes ALONE - what a literal denotes does not
+         depend on what follows it in the text; a literal that alone is an unterminated string makes the expression an
+         error whenever the reference division into tokens leaves a quote open;
  host    host functions whose parameter is declared as a literal (NumericConstant, StringConstant, BooleanConstant,
          Constant, nullable and not) or left untyped, called positionally and by keyword with literals of every
          class: the value the host receives is the value the literal denotes (type included).
@@ -40,9 +48,13 @@ TITLE = 'literals denote the values they spell'
 RULE = ('texts are generated from value descriptions (string, code point + escape form, body, number, word), never '
         'parsed back by the checker; a case is distinct by its text and non-trivial when the reference defines its '
         'value (in-domain); expected values are computed without the lexer: the string itself, chr(cp), '
-        'the independent decoder, integer arithmetic, correctly rounded Fraction')
+        'the independent decoder, integer arithmetic, correctly rounded Fraction; expressions with several literals are '
+        'composed from literal descriptions and expect, per literal, the value the reference gives the literal alone')
 ASSUMPTIONS = ['every case compares Constant.value in the tree; the literal is also evaluated except in the bulk of the sweeps '
-               '(code points U+0800..U+D7FF, strings and bodies of length 4, integers 2000..99999 other than multiples of 64, 3-digit fractions)',
+               '(code points U+0800..U+D7FF, strings and bodies of length 4, integers 2000..99999 other than multiples of 64, 3-digit fractions, '
+               'three-literal expressions written without blanks)',
+               'several literals in one expression: [..], +, {=>}, list() and concat() of the standard library build the list / string / dict '
+               'of their operands (C16 judges the literal nodes of the tree as well, so a failure of these functions alone cannot hide a literal)',
                'CPython int arithmetic, chr() and Fraction->float rounding are the reference',
                'unicodedata names are the reference for \\N{NAME}',
                'a value whose verbatim spelling would need an unpaired backslash has no verbatim spelling (domain note of DESIGN C16)',
@@ -52,8 +64,11 @@ BOUNDS = {
              '\\U and \\N for cp < 0x3000 and plane boundaries (full style x context product below 0x300, 4 contexts above); body <=4 over 18 symbols x 3 styles; int: n<10**5, k<=4000 step 7 '
              'plus all k<=120; decimal: 103 integer parts x 1110 fractions + long forms; words <=3 over 5 symbols; '
              'options: all 2048 surrogates x (3 raw styles + \\u) alone and embedded, 270 BMP + 12 astral samples, strings <=2 over 15 symbols, '
-             '30 numbers/constants on an engine with memoryQuota=10**9, limitIterators=10**6; host: 10 declared parameter types x 2 call forms x 38 literals',
-    'thorough': 'as quick with \\U, \\N for every BMP code point, int k<=min(4000, digit limit) every k, bodies <=5',
+             '30 numbers/constants on an engine with memoryQuota=10**9, limitIterators=10**6; host: 10 declared parameter types x 2 call forms x 38 literals; '
+             'together: 118 literals (36 bodies x 3 styles + 10 numbers/constants/keywords) alone and all ordered pairs x 5 embeddings '
+             'x 2 spacings; all ordered triples over a 42-literal core (13 bodies x 3 styles + 3 scalars) x [a, b, c], a + b + c x 2 spacings',
+    'thorough': 'as quick with \\U, \\N for every BMP code point, int k<=min(4000, digit limit) every k, bodies <=5; '
+                'together: core triples also in concat(a,b,c) and {a => [b, c]}; all ordered triples over all 118 literals in [a,b,c]',
 }
 
 INT_LIMIT = sys.get_int_max_str_digits() if hasattr(sys, 'get_int_max_str_digits') else 0
@@ -584,6 +599,210 @@ def job_host():
 
 
 # --------------------------------------------------------------------------
+# together: several literals in one expression
+# --------------------------------------------------------------------------
+BS = '\\'
+BAD = ('bad',)          # the lone literal is not one string token (its body ends in an unpaired backslash)
+
+
+def together_bodies(q):
+    """(body, core) token bodies of style q, simplest first: empty, runs of 1..4 backslashes at the end, the
+    escaped quote of the own style (alone, embedded, after and in front of paired backslashes), the quote characters
+    of the other styles (raw and behind a backslash), the separators of the embeddings, and bodies that look like the
+    end of one literal followed by the start of the next.  core marks the subset used for triples in the quick tier."""
+    o1, o2 = [s for s in M.STYLES if s != q]
+    return [('', 1), ('a', 1), (BS * 2, 1), ('a' + BS * 2, 1), (BS + q, 1), (o1, 1), (o2, 1), (', ', 1), (BS, 1),
+            (BS + q + BS * 2, 1), (BS * 4, 1), (BS * 3 + q, 1), (BS * 2 + o2, 1),
+            (' ', 0), ('C:' + BS * 2, 0), (BS * 3, 0), ('a' + BS + q + 'b', 0), (BS + q + BS + q, 0), (o1 + o2, 0), (BS + o1, 0),
+            (BS * 2 + o1, 0), (',', 0), ('=>', 0), (' => ', 0), ('+', 0), (' + ', 0), (BS + q + ', ' + BS + q, 0),
+            (BS + q + ' + ' + BS + q, 0), (o1 + ', ' + o1, 0), (o2 + ' => ' + o2, 0), (BS + 'n', 0), (BS + 'x41' + BS * 2, 0),
+            (']', 0), (')', 0), ('}', 0), ('[' + o1, 0)]
+
+
+TOGETHER_SCALARS = [('1', 1), ('null', 1), ('abc', 1), ('0', 0), ('10', 0), ('0.5', 0), ('1.0', 0), ('true', 0), ('false', 0), ('_x', 0)]
+
+
+def together_literals(core_only=False):
+    """[(class, body)]: class is a quote style or 'scalar' (number, constant or keyword, body = its text)."""
+    out = []
+    for q in M.STYLES:
+        out += [(q, body) for body, core in together_bodies(q) if core or not core_only]
+    out += [('scalar', text) for text, core in TOGETHER_SCALARS if core or not core_only]
+    return out
+
+
+def literal_text(cls, body):
+    return body if cls == 'scalar' else cls + body + cls
+
+
+def literal_denotes(cls, body):
+    """What the literal denotes on its own, from the reference model: ('const'|'kw', value) | BAD | None."""
+    if cls == 'scalar':
+        if body[0] in M.DIGITS:
+            whole, dot, frac = body.partition('.')
+            return ('const', M.decimal_value(whole, frac) if dot else M.int_value(whole))
+        m = M.keyword(body, OPERATOR_WORDS)
+        return ('const', m[1]) if m[0] == 'const' else ('kw', body)
+    if not M.is_token_body(body, cls):
+        return BAD
+    v = M.verbatim_value(body) if cls == '`' else M.decode(body)
+    return None if v is M.ILLFORMED else ('const', v)
+
+
+# name -> (template, strings only); the tight variant is the template without its blanks
+SHAPES = {
+    'alone': ('%s', False),
+    'list2': ('[%s, %s]', False), 'plus2': ('%s + %s', True), 'map2': ('{%s => %s}', False),
+    'call2': ('list(%s, %s)', False), 'concat2': ('concat(%s, %s)', True),
+    'list3': ('[%s, %s, %s]', False), 'plus3': ('%s + %s + %s', True), 'concat3': ('concat(%s, %s, %s)', True),
+    'nest3': ('{%s => [%s, %s]}', False),
+}
+SHAPES2 = ('list2', 'plus2', 'map2', 'call2', 'concat2')
+# (shape, tight) variants of the triples over the core literals; the tight triples are compared in the tree only, the
+# others are evaluated as well.  thorough runs [a,b,c] without blanks over ALL literals instead of the core.
+SHAPES3 = {'quick': (('list3', False), ('list3', True), ('plus3', False), ('plus3', True)),
+           'thorough': (('list3', False), ('plus3', False), ('plus3', True), ('concat3', True), ('nest3', False))}
+
+
+def together_text(shape, tight, lits):
+    template = SHAPES[shape][0]
+    if tight:
+        template = template.replace(' ', '')
+    return template % tuple(literal_text(*l) for l in lits)
+
+
+def together_value(shape, values):
+    if shape == 'alone':
+        return values[0]
+    if shape.startswith(('list', 'call')):
+        return list(values)
+    if shape.startswith(('plus', 'concat')):
+        return ''.join(values)
+    if shape == 'map2':
+        return {values[0]: values[1]}
+    return {values[0]: [values[1], values[2]]}
+
+
+def together_expect(shape, tight, lits):
+    """('value', [(kind, value) per literal], value of the expression) | ('rejected',) | None: every literal denotes
+    what it denotes alone; when one of them alone is an unterminated string the text is judged only if the reference
+    division into tokens leaves a quote open (then it is an error), otherwise it is a different text (not judged)."""
+    denotes = [literal_denotes(*l) for l in lits]
+    if any(d is None for d in denotes):
+        return None
+    if any(d is BAD for d in denotes):
+        return ('rejected',) if M.string_tokens(together_text(shape, tight, lits)) is M.UNTERMINATED else None
+    return ('value', denotes, together_value(shape, [d[1] for d in denotes]))
+
+
+def constants(node, out):
+    """The literal nodes of a tree, left to right."""
+    if isinstance(node, X.Constant):
+        out.append(('kw' if isinstance(node, X.KeywordConstant) else 'const', node.value))
+    elif isinstance(node, X.MappingRuleExpression):
+        constants(node.source, out)
+        constants(node.destination, out)
+    elif isinstance(node, X.Function):
+        for a in node.args:
+            constants(a, out)
+    else:
+        out.append(('node', type(node).__name__))
+    return out
+
+
+def deep_same(x, y):
+    if type(x) is not type(y):
+        return False
+    if isinstance(x, list):
+        return len(x) == len(y) and all(deep_same(a, b) for a, b in zip(x, y))
+    if isinstance(x, dict):
+        return len(x) == len(y) and all(any(deep_same(k, k2) and deep_same(v, v2) for k2, v2 in y.items()) for k, v in x.items())
+    return same(x, y)
+
+
+def observe_together(text, evaluate=True):
+    """('value', literal nodes, evaluated | None when not evaluated) | ('rejected', class) | ('raised', class)."""
+    s = setup()
+    try:
+        st = s['eng'](text)
+    except yexc.YaqlParsingException as e:
+        return ('rejected', type(e).__name__)
+    except Exception as e:
+        return ('raised', type(e).__name__)
+    nodes = constants(st.expression, [])
+    if not evaluate:
+        return ('value', nodes, None)
+    try:
+        ev = st.evaluate(context=s['root'].create_child_context())
+    except Exception as ex:
+        return ('raised', 'evaluate:' + type(ex).__name__)
+    return ('value', nodes, ev)
+
+
+def together_verdict(obs, expect, evaluate=True):
+    """None when the observation is what the reference expects, else a short description of the difference."""
+    if expect[0] == 'rejected':
+        return None if obs[0] == 'rejected' else 'accepted' if obs[0] == 'value' else 'raised ' + obs[1]
+    if obs[0] != 'value':
+        return obs[0] + ' ' + obs[1]
+    if len(obs[1]) != len(expect[1]) or not all(a[0] == b[0] and same(a[1], b[1]) for a, b in zip(obs[1], expect[1])):
+        return 'wrong literal in the tree'
+    return None if not evaluate or deep_same(obs[2], expect[2]) else 'wrong value'
+
+
+def together_case(res, shape, tight, lits, evaluate=True):
+    if SHAPES[shape][1] and any(cls == 'scalar' for cls, _ in lits):
+        return
+    case = {'family': 'together', 'shape': shape, 'tight': tight, 'lits': [list(l) for l in lits]}
+    core.CURRENT_CASE[0] = case
+    res.case(('together', shape, tight, tuple(lits)))
+    text = together_text(shape, tight, lits)
+    expect = together_expect(shape, tight, lits)
+    obs = observe_together(text, evaluate)
+    res.evaluations += 1
+    res.extra['evaluated_as_well_as_parsed'] = res.extra.get('evaluated_as_well_as_parsed', 0) + (1 if evaluate else 0)
+    res.transitions += 1
+    if expect is None:
+        res.out_of_domain += 1
+        res.outcomes['together: out of domain -> %s' % obs[0]] += 1
+        return
+    res.nontrivial += 1
+    res.outcomes['together: %s' % obs[0]] += 1
+    how = together_verdict(obs, expect, evaluate)
+    if how:
+        classes = sorted({cls for cls, _ in lits}, key=(M.STYLES + ('scalar',)).index)
+        res.fail('together literals=%s: %s' % ('+'.join(classes), how), case,
+                 'text %r observed %.200r expected %.200r' % (text, obs, expect), size=len(text))
+
+
+def job_together_pairs(firsts):
+    res = Result()
+    lits = together_literals()
+    for a in firsts:
+        a = tuple(a)
+        together_case(res, 'alone', False, (a,))
+        for b in lits:
+            for shape in SHAPES2:
+                for tight in (False, True):
+                    together_case(res, shape, tight, (a, b))
+    res.sample({'family': 'together', 'texts': [together_text(sh, t, (tuple(firsts[0]), lits[3])) for sh in SHAPES2 for t in (False, True)]}, limit=1)
+    return res
+
+
+def job_together_triples(firsts, core_only, variants):
+    res = Result()
+    lits = together_literals(core_only)
+    for a in firsts:
+        a = tuple(a)
+        for b in lits:
+            for c in lits:
+                for shape, tight in variants:
+                    together_case(res, shape, tight, (a, b, c), not tight)
+    res.sample({'family': 'together', 'texts': [together_text(sh, t, (tuple(firsts[0]), lits[2], lits[3])) for sh, t in variants]}, limit=1)
+    return res
+
+
+# --------------------------------------------------------------------------
 def jobs(tier, seed):
     out = []
     for i, sl in enumerate(chunks(SPELL_ALPHA, 8)):
@@ -611,6 +830,13 @@ def jobs(tier, seed):
     out.append(('evalpath', 'job_evalpath', ()))
     out.append(('options', 'job_options', ()))
     out.append(('host', 'job_host', ()))
+    for i, sl in enumerate(chunks(together_literals(), 16)):
+        out.append(('together-pairs-%d' % i, 'job_together_pairs', (sl,)))
+    for i, sl in enumerate(chunks(together_literals(core_only=True), 16)):
+        out.append(('together-triples-%d' % i, 'job_together_triples', (sl, True, SHAPES3[tier])))
+    if tier == 'thorough':
+        for i, sl in enumerate(chunks(together_literals(), 32)):
+            out.append(('together-triples-all-%d' % i, 'job_together_triples', (sl, False, (('list3', True),))))
     return out
 
 
@@ -637,6 +863,14 @@ def replay(case):
         else:
             ok = obs[0] == 'v' and same(obs[1], expect[1]) and len(obs[2]) == 1 and same(obs[2][0], expect[1])
         return {'text': text, 'observed': '%.300r' % (obs,), 'expected': '%.300r' % (expect,), 'ok': ok}
+    if fam == 'together':
+        lits = [tuple(l) for l in case['lits']]
+        text = together_text(case['shape'], case['tight'], lits)
+        expect = together_expect(case['shape'], case['tight'], lits)
+        obs = observe_together(text)
+        return {'text': text, 'observed': '%.300r' % (obs,), 'expected': '%.300r' % (expect,),
+                'alone': [[literal_text(*l), '%.80r' % (literal_denotes(*l),)] for l in lits],
+                'ok': expect is None or together_verdict(obs, expect) is None}
     if fam == 'spell':
         text = M.quote(case['value'], case['style'])
         expect = ('const', case['value'])
